@@ -274,12 +274,13 @@ class SymInt:
         return 0x5CA1AB1E
 
     def __repr__(self):
-        return "<SymInt [%d,%d]>" % (self.lo, self.hi)
+        # unique per term, so that strings built from different symbolic values never compare equal
+        return "<SymInt#%d>" % self.e.get_id()
 
     __str__ = __repr__
 
     def __format__(self, spec):
-        return "<SymInt>"
+        return "<SymInt#%d>" % self.e.get_id()
 
     def __index__(self):
         return ctx().concretize(self)
@@ -550,16 +551,17 @@ class SymInt:
         o = coerce(o)
         if o is None:
             return NotImplemented
+        if isinstance(o, int) and o >= 0 and self.lo < 0:
+            # python's infinite two's complement & with a non-negative mask: result in [0, o]
+            return mk(self.e & bv(o), 0, o, o, 0)
+        if (isinstance(o, int) and o < 0) or (isinstance(o, SymInt) and o.lo < 0) or self.lo < 0:
+            return self._bitop_signed(o, "and")
         if isinstance(o, int):
-            if o < 0 or self.lo < 0:
-                raise Unsupported("bitwise and on negative values")
             pm = self.pm & o
             ko = self.ko & o
             if pm == ko:
                 return ko
             return mk(self.e & bv(o), 0, min(self.hi, o), pm, ko)
-        if self.lo < 0 or o.lo < 0:
-            raise Unsupported("bitwise and on negative values")
         pm = self.pm & o.pm
         ko = self.ko & o.ko
         if pm == ko:
@@ -572,15 +574,13 @@ class SymInt:
         o = coerce(o)
         if o is None:
             return NotImplemented
+        if (isinstance(o, int) and o < 0) or (isinstance(o, SymInt) and o.lo < 0) or self.lo < 0:
+            return self._bitop_signed(o, "or")
         if isinstance(o, int):
-            if o < 0 or self.lo < 0:
-                raise Unsupported("bitwise or on negative values")
             if o == 0:
                 return self
             pm = self.pm | o
             return mk(self.e | bv(o), max(self.lo, o), pm, pm, self.ko | o)
-        if self.lo < 0 or o.lo < 0:
-            raise Unsupported("bitwise or on negative values")
         pm = self.pm | o.pm
         return mk(self.e | o.e, max(self.lo, o.lo), pm, pm, self.ko | o.ko)
 
@@ -590,13 +590,11 @@ class SymInt:
         o = coerce(o)
         if o is None:
             return NotImplemented
+        if (isinstance(o, int) and o < 0) or (isinstance(o, SymInt) and o.lo < 0) or self.lo < 0:
+            return self._bitop_signed(o, "xor")
         if isinstance(o, int):
-            if o < 0 or self.lo < 0:
-                raise Unsupported("bitwise xor on negative values")
             pm = self.pm | o
             return mk(self.e ^ bv(o), 0, pm, pm, 0)
-        if self.lo < 0 or o.lo < 0:
-            raise Unsupported("bitwise xor on negative values")
         pm = self.pm | o.pm
         return mk(self.e ^ o.e, 0, pm, pm, 0)
 
@@ -604,6 +602,16 @@ class SymInt:
 
     def __invert__(self):
         return -self - 1
+
+    def _bitop_signed(self, o, op):
+        """bitwise op with possibly negative operands: W-bit two's complement equals python's infinite
+        two's complement as long as both operands fit in k bits signed; the result then fits in k bits."""
+        olo, ohi = (o, o) if isinstance(o, int) else (o.lo, o.hi)
+        k = max(abs(self.lo), abs(self.hi) + 1, abs(olo), abs(ohi) + 1).bit_length()
+        lo, hi = -(1 << k), (1 << k) - 1
+        oe = iexpr(o)
+        e = {"and": self.e & oe, "or": self.e | oe, "xor": self.e ^ oe}[op]
+        return mk(e, lo, hi)
 
     # ---- comparisons
     def _cmp(self, o, op):
@@ -1071,11 +1079,40 @@ class Context:
             return x.lo
         n = x.hi - x.lo + 1
         if n > 4096:
-            raise Unsupported("concretising a SymInt with %d possible values" % n)
+            vals = self.enumerate_values(x, 64)
+            k = self.choose([x.e == bv(v) for v in vals])
+            return vals[k]
         vals = [v for v in range(x.lo, x.hi + 1)
                 if x.lo < 0 or ((v & ~x.pm) == 0 and (v & x.ko) == x.ko)]
         k = self.choose([x.e == bv(v) for v in vals])
         return vals[k]
+
+    def enumerate_values(self, x, limit):
+        """all values of x feasible under the current path condition (solver AllSAT on x); more than
+        `limit` values -> Unsupported.  Deterministic: values are returned sorted."""
+        fr = self.frames[-1]
+        if not fr.use_solver:
+            raise Unsupported("concretising a wide SymInt inside a merged function")
+        vals = []
+        self.solver.push()
+        try:
+            while True:
+                self.stats.feas_queries += 1
+                r = self.solver.check()
+                if r == z3.unknown:
+                    raise Inconclusive("solver unknown while enumerating values")
+                if r == z3.unsat:
+                    break
+                v = self.solver.model().eval(x.e, model_completion=True).as_signed_long()
+                vals.append(v)
+                if len(vals) > limit:
+                    raise Unsupported("concretising a SymInt with more than %d feasible values" % limit)
+                self.solver.add(x.e != bv(v))
+        finally:
+            self.solver.pop()
+        if not vals:
+            raise PathAbort()
+        return sorted(vals)
 
     def path_cond(self):
         out = []
@@ -1217,6 +1254,8 @@ class Context:
     cex_eval = None
 
     def fail(self, label, info=None):
+        if isinstance(info, dict) and proxy_artifact(str(info.get("exc", ""))):
+            raise Unsupported("exception caused by a symbolic proxy at a C-level boundary: %s" % info.get("exc"))
         return self.prove(False, label, info)
 
     def reach(self, label):
@@ -1232,6 +1271,15 @@ class Context:
 
     def observe(self, name, value):
         self.observed[name] = value
+
+
+_PROXY_NAMES = ("SymInt", "SymBool", "SymStr", "SymReal", "SymFP", "SymFInt", "SymFloat", "OpaqueFloat", "Dual", "HookedList", "HookedDict")
+
+
+def proxy_artifact(msg):
+    """TypeError/ValueError texts that mention a proxy class come from C-level code rejecting the proxy."""
+    return any(n in msg for n in _PROXY_NAMES) and ("TypeError" in msg or "must be" in msg or "not supported" in msg
+                                                      or "unsupported operand" in msg or "object cannot" in msg)
 
 
 def _short(claim, n=300):
@@ -1308,8 +1356,11 @@ def explore(harness, params=None, width=DEFAULT_WIDTH, max_paths=200000, max_dec
             except Exception as ex:
                 # the code under test raised where the harness did not expect it: a counterexample candidate
                 import traceback as _tb
-                c.fail("no-unexpected-exception", info={"exc": "%s: %s" % (type(ex).__name__, ex),
-                                                        "where": _tb.format_exc()[-600:]})
+                try:
+                    c.fail("no-unexpected-exception", info={"exc": "%s: %s" % (type(ex).__name__, ex),
+                                                            "where": _tb.format_exc()[-600:]})
+                except Unsupported as ux:
+                    c.stats.inconclusive.append("unsupported: %s" % ux)
             except Inconclusive as ex:
                 c.stats.inconclusive.append("inconclusive: %s" % ex)
             except Unsupported as ex:
